@@ -553,6 +553,7 @@ def check(ctx):
                '(configuration errors) are outside this rule')
     check_exit(ctx)
     check_raise_args(ctx)
+    check_kwargs_forwarding(ctx)
     check_debug(ctx)
     check_authorize(ctx)
     check_stateless(ctx, 'C07.STATELESS')
@@ -562,6 +563,54 @@ def check(ctx):
     # do_raise / exc mode (= C08.CREDS)
     from . import c08
     ctx.borrow('C07.SURFACE', c08.check_creds, only=['C08.CREDS'])
+
+
+def check_kwargs_forwarding(ctx):
+    """The caller's extra keyword arguments belong to the caller's exception
+    class.  Re-splatted into a helper of the library that has named
+    parameters of its own they collide with those names (`name=...` given
+    by the caller against a helper parameter `name`): TypeError instead of
+    the requested exception."""
+    prog = ctx.prog
+    enf = prog.func(POLICY + '.Enforcer.enforce')
+    kw = enf.node.args.kwarg.arg if enf.node.args.kwarg else None
+    if kw is None:
+        return
+    n = 0
+    for q, f in sorted(prog.region(enf, stop=(
+            POLICY + '.Enforcer.load_rules',)).items()):
+        if f is not enf and not (f.node.args.kwarg is not None):
+            continue
+        own = f.node.args.kwarg.arg if f.node.args.kwarg else None
+        for c in walk_no_nested(f.node):
+            if not isinstance(c, ast.Call):
+                continue
+            stars = [k for k in c.keywords if k.arg is None and isinstance(
+                k.value, ast.Name) and k.value.id == (kw if f is enf
+                                                      else own)]
+            if not stars:
+                continue
+            g = prog.callee_of(f, c)
+            if g is None:
+                continue            # the caller's class, a builtin ...
+            n += 1
+            a = g.node.args
+            # (a keyword spelled like a parameter of enforce itself never
+            # reaches **kwargs: it is bound by enforce)
+            named = [x.arg for x in a.args + a.kwonlyargs
+                     if x.arg not in ('self', 'cls')
+                     and x.arg not in enf.params]
+            ok = not named
+            ctx.ob('C07.RAISE-ARGS', ok, ctx.where(f.module, c), f.qual,
+                   U(c)[:80],
+                   'forwards the caller\'s keyword arguments to a function '
+                   'without named parameters' if ok else
+                   'the caller\'s **%s are passed on to %s, whose own '
+                   'parameters (%s) a caller keyword of the same name '
+                   'collides with: TypeError instead of the requested '
+                   'exception' % (stars[0].value.id, g.name,
+                                  ', '.join(named)))
+    ctx.extra['kwargs_forwardings'] = n
 
 
 def check_stateless(ctx, rule):
